@@ -177,7 +177,7 @@ def obs(fn):
     return ("ok", v)
 
 
-def run_ops(fa, schema, data, seed, rereads):
+def run_ops(fa, schema, data, seed, rereads, skip_generate=False):
     from fastavro.schema import to_parsing_canonical_form, fingerprint
     from fastavro.utils import generate_many
 
@@ -219,7 +219,9 @@ def run_ops(fa, schema, data, seed, rereads):
         # uuid4() does not draw from `random`: mask generated uuid strings
         return _mask_uuid(list(generate_many(schema, 3)))
 
-    out["generate"] = obs(gen)
+    # data generation on recursive types is unbounded (open finding of C20) and can take
+    # tens of seconds before it blows the stack: not exercised here
+    out["generate"] = ("ok", "skipped: recursive schema") if skip_generate else obs(gen)
     return out
 
 
@@ -273,7 +275,8 @@ def one_case(sh, fa, rng, case, reread_log, only_subset=None):
         return [("parse-not-idempotent", "parse_schema(parsed) returned a different schema: %s" % (exc_name(again) if st == "exc" else printable(again, 200)), {"schema": js})]
     sh.count("idempotence_checked")
     rr = []
-    base = run_ops(fa, copy.deepcopy(js), data, seed, rr)
+    skipgen = "recursive" in known.schema_traits(js)
+    base = run_ops(fa, copy.deepcopy(js), data, seed, rr, skipgen)
     forms = [("parsed", parsed, ())]
     sep = separable(js)[:4]
     subsets = [s for k in range(1, len(sep) + 1) for s in itertools.combinations(sep, k)]
@@ -304,7 +307,7 @@ def one_case(sh, fa, rng, case, reread_log, only_subset=None):
         sh.count("nonempty_splits")
     for name, schema, subset in forms:
         rr2 = []
-        o = run_ops(fa, schema, data, seed, rr2)
+        o = run_ops(fa, schema, data, seed, rr2, skipgen)
         for op in OPS:
             sh.count("forms_compared")
             sh.case(h64(schema_shape(js), len(subset), op) if op == "binary" else None, bool(subset) or op != "parse")
